@@ -37,8 +37,8 @@ def e2e_tasks(clauses, tier, perm=False):
             for N in (1, 2, 3):
                 if N == 3 and len(sh) > 1 and tier != "thorough":
                     continue
-                if perm and (N == 1 or (N == 3 and tier != "thorough")):
-                    continue  # every iteration order of every set: 2 methods in the quick tier, 3 in the thorough tier
+                if perm and N != 2:
+                    continue  # every iteration order of every set, for 2 methods (3 methods: 11 000 paths per shape, 20 min - the order-free posts of sort_types / mro in mode U cover any number)
                 out.append(T(f"e2e[{c}{',perm' if perm else ''},N={N},{'/'.join(sh)}]", typemap_c.t_e2e(N, sh, c, perm=perm), "B"))
     return out
 
